@@ -1918,3 +1918,30 @@ def rule_sizeof(text):
             apps.append(_app("R-sizeof", text, mm.start(), mm.end(), val, "definition: size_of::<%s>()" % ty))
             text = text[:mm.start()] + val + text[mm.end():]
     return text, apps
+
+
+def rule_ctormisc(text):
+    """Record constructors (record.rs)"""
+    apps = []
+    ws = r"\s*"
+    table = [
+        (r"parking_lot" + ws + r"::" + ws + r"RwLock" + ws + r"::" + ws + r"new", "ValueLock::new", "R-handle", "the value cell"),
+        (r"OnceLock" + ws + r"::" + ws + r"new", "SuccessorCell::new", "R-handle", "the once-set successor link"),
+        (r"Arc" + ws + r"::" + ws + r"downgrade" + ws + r"\(" + ws + r"(\w+)" + ws + r"\)", r"arc_downgrade(\1)", "R-genid", "shim: Arc::downgrade names the same generation"),
+        (r"let" + ws + r"record" + ws + r"=" + ws + r"(Self::\w+\([^;]*\));" + ws + r"record" + ws + r"\." + ws + r"ttl_expiry" + ws + r"\." + ws + r"store" + ws + r"\(" + ws + r"([^;,]+?)" + ws + r"," + ws + r"Ordering::\w+" + ws + r"\);" + ws + r"record\b",
+         r"let record = \1; let record = Record { ttl_expiry: record.ttl_expiry.with_value(\2), ..record }; record", "R-ctorstore",
+         "a store into a field of a record the constructor still owns exclusively = rebuilding the record with that field replaced"),
+    ]
+    for pat, rep, rname, why in table:
+        n = 0
+        while n < 8:
+            n += 1
+            mm = re.search(pat, text)
+            if not mm:
+                break
+            new = mm.expand(rep)
+            if new == text[mm.start():mm.end()]:
+                break
+            apps.append(_app(rname, text, mm.start(), mm.end(), new, why))
+            text = text[:mm.start()] + new + text[mm.end():]
+    return text, apps
